@@ -22,7 +22,8 @@ Inductive mk :=
   | MkDRI (v : Z)
   | MkSOF (code prec height width : Z) (comps : list (Z * Z * Z * Z))   (* id, h, v, Tq *)
   | MkSOS (comps : list (Z * Z * Z)) (Ss Se Ah Al : Z)                  (* id, Td, Ta *)
-  | MkData (scan : Z) (bytes : list Z).
+  | MkData (scan : Z) (bytes : list Z)
+  | MkApp (code : Z) (data : list Z).               (* jpeg_write_marker: COM / APPn written by the application *)
 
 Definition b8 (v : Z) : Z := v mod 256.
 Definition emit_2bytes (v : Z) : list Z := [(v / 256) mod 256; v mod 256].
@@ -49,6 +50,7 @@ Definition encode_mk (m : mk) : list Z :=
       marker g_M_SOS ++ emit_2bytes (2 * Z.of_nat (length comps) + 2 + 1 + 3) ++ [b8 (Z.of_nat (length comps))] ++
       flat_map (fun c => match c with (id, td, ta) => [b8 id; b8 (td * 16 + ta)] end) comps ++ [b8 Ss; b8 Se; b8 (Ah * 16 + Al)]
   | MkData _ bytes => bytes
+  | MkApp code data => marker code ++ emit_2bytes (Z.of_nat (length data) + 2) ++ map b8 data
   end.
 Definition bytes_of (tr : list mk) : list Z := flat_map encode_mk tr.
 
@@ -224,6 +226,68 @@ Definition regen_std (img : image) (scans : Z -> scanp) (newc : Z -> Z -> list Z
 Definition optimize_eff (arith lossless progressive optimize force12 : bool) : bool :=
   if arith then false else lossless || progressive || optimize || force12.
 Definition dcrefine_of (scans : Z -> scanp) (k : Z) : bool := (sp_Ss (scans k) =? 0) && negb (sp_Ah (scans k) =? 0).
+
+(* ---------------------------------------------------------------- jpeg_write_tables / jpeg_write_marker *)
+(* write_tables_only: SOI, every defined quantisation table, every defined Huffman table (unless arithmetic
+   coding is selected), EOI -- through emit_dqt / emit_dht, so only unsent tables are written and all end up sent *)
+Fixpoint wt_loop (st : wstate) (emit : wstate -> Z -> cerr + (list mk * wstate)) (present : wstate -> Z -> bool)
+         (idx : list Z) (acc : list mk) : cerr + (list mk * wstate) :=
+  match idx with
+  | [] => inr (acc, st)
+  | i :: r => if present st i then
+                match emit st i with
+                | inl e => inl e
+                | inr (m, st') => wt_loop st' emit present r (acc ++ m)
+                end
+              else wt_loop st emit present r acc
+  end.
+Definition tbl_idx : list Z := map Z.of_nat (seq 0 (Z.to_nat g_NUM_QUANT_TBLS)).
+Definition has (slotf : Z -> Z) (st : wstate) (i : Z) : bool := match get_tbl st (slotf i) with Some _ => true | None => false end.
+Definition write_tables_only (arith : bool) (st0 : wstate) : cerr + (list mk * wstate) :=
+  (* jpeg_write_tables runs jinit_marker_writer first: last_restart_interval = 0 *)
+  let st := {| w_tbls := w_tbls st0; w_last_ri := 0 |} in
+  match wt_loop st (fun st i => match emit_dqt st i with inl e => inl e | inr (m, st', _) => inr (m, st') end) (has qslot) tbl_idx [MkSOI] with
+  | inl e => inl e
+  | inr (m1, st1) =>
+      if arith then inr (m1 ++ [MkEOI], st1) else
+      match wt_loop st1 (fun st i =>
+               match (if has dcslot st i then emit_dht st i false else inr ([], st)) with
+               | inl e => inl e
+               | inr (ma, sta) => match (if has acslot sta i then emit_dht sta i true else inr ([], sta)) with
+                                  | inl e => inl e
+                                  | inr (mb, stb) => inr (ma ++ mb, stb)
+                                  end
+               end) (fun _ _ => true) tbl_idx m1 with
+      | inl e => inl e
+      | inr (m2, st2) => inr (m2 ++ [MkEOI], st2)
+      end
+  end.
+
+(* the API state machine of jcapimin.c / jcapistd.c as far as these calls look at it *)
+Inductive gstate := CSTATE_START | CSTATE_SCANNING | CSTATE_RAW_OK | CSTATE_WRCOEFS.
+(* jpeg_write_tables: only in CSTATE_START *)
+Definition api_write_tables (g : gstate) (arith : bool) (st : wstate) : cerr + (list mk * wstate) :=
+  match g with CSTATE_START => write_tables_only arith st | _ => inl BadState end.
+(* jpeg_write_marker / jpeg_write_m_header: after jpeg_start_compress (or jpeg_write_coefficients) and before the
+   first scanline; write_marker_header refuses more than 65533 data bytes *)
+Definition api_write_marker (g : gstate) (next_scanline : Z) (code : Z) (data : list Z) : cerr + list mk :=
+  if negb (next_scanline =? 0) || (match g with CSTATE_START => true | _ => false end) then inl BadState
+  else if Z.of_nat (length data) >? g_MARKER_MAX_DATA then inl BadLength
+  else inr [MkApp code data].
+
+(* a compression whose application wrote `apps` right after jpeg_start_compress: the frame and scan headers are
+   postponed (pass_startup / output pass), so the markers follow the file header *)
+Definition assemble_with_apps (img : image) (scans : Z -> scanp) (data : Z -> list Z) (regen : Z -> wstate -> wstate)
+           (apps : list (Z * list Z)) (ev : list event) (st : wstate) : cerr + list mk :=
+  match ev with
+  | EvSOI :: r =>
+      let '(m, st') := write_file_header img st in
+      match assemble img scans data regen r st' with
+      | inl e => inl e
+      | inr t => inr (m ++ map (fun a => MkApp (fst a) (snd a)) apps ++ t)
+      end
+  | _ => assemble img scans data regen ev st
+  end.
 
 (* ---------------------------------------------------------------- the reader's view *)
 (* what a reader of the marker sequence knows: table contents per slot, restart interval in force *)
